@@ -41,9 +41,11 @@ def tree_sha():
 def parse_known(prop):
     """known_findings.txt -> (open findings, fixed entries) for one property."""
     opens, fixed = [], []
-    if not os.path.exists(KNOWN_FILE):
-        return opens, fixed
-    for line in open(KNOWN_FILE):
+    lines = []
+    for fn in [KNOWN_FILE, os.path.join(ROOT, "known", f"{prop}.txt")]:
+        if os.path.exists(fn):
+            lines += open(fn).read().splitlines()
+    for line in lines:
         line = line.strip()
         if not line or line.startswith("#"):
             continue
